@@ -25,7 +25,9 @@ RULES = {
 
 RULES['C10'] += (' Added later: an awaited expect(EOF) (asyncio closing the object), fdspawn with use_poll, the rarely used descriptor '
                  'operations (setwinsize, getwinsize, setecho, getecho, waitnoecho, isatty, fileno, flush, readline, sendcontrol, sendintr) '
-                 'anywhere in the sequence, and a log file object that the application closes before it closes the spawn object.')
+                 'anywhere in the sequence, a log file object that the application closes before it closes the spawn object, fdspawn on descriptor '
+                 'number 0, and for del: child and descriptor are gone as soon as the last reference is dropped, without running the cyclic '
+                 'collector by hand (C10.leak_until_gc). The event loop polling a descriptor counts as touching it.')
 RULES['C09'] += ' Added later: awaited expect(EOF), PopenSpawn children (status mapping in wait()).'
 
 ASSUME = ['wait() on a stopped child nobody continues is documented as unsupported and skipped',
